@@ -212,6 +212,17 @@ class SuperSpeedStreamInEndpoint(Elaboratable):
         ack_received      = handshakes_in.ack_received & is_to_us
         in_token_received = ack_received & is_in_token
 
+        # Apply our general transfer information. These are driven in every state: the transmitter latches
+        # them when ``tx.valid`` rises (for a one-word packet that is after SEND_PACKET has been left) or
+        # when ``tx_zlp`` is strobed. A ZLP strobed in the cycle that advances the sequence number already
+        # carries the advanced number.
+        m.d.comb += [
+            interface.tx_direction        .eq(USBDirection.IN),
+            interface.tx_sequence_number  .eq(Mux(advance_sequence, next_sequence_number, sequence_number)),
+            interface.tx_length           .eq(read_fill_count),
+            interface.tx_endpoint_number  .eq(self._endpoint_number),
+        ]
+
         with m.FSM(domain='ss'):
 
             # WAIT_FOR_DATA -- We don't yet have a full packet to transmit, so  we'll capture data
@@ -298,14 +309,6 @@ class SuperSpeedStreamInEndpoint(Elaboratable):
             # SEND_PACKET -- we now have enough data to send _and_ have received an IN token.
             # We can now send our data over to the host.
             with m.State("SEND_PACKET"):
-
-                m.d.comb += [
-                    # Apply our general transfer information.
-                    interface.tx_direction        .eq(USBDirection.IN),
-                    interface.tx_sequence_number  .eq(sequence_number),
-                    interface.tx_length           .eq(read_fill_count),
-                    interface.tx_endpoint_number  .eq(self._endpoint_number),
-                ]
 
                 with m.If(~out_stream.valid.any() | out_stream.ready):
                     # Once we emitted a word of data for our receiver, move to the next word in our packet.
